@@ -7,7 +7,12 @@ use bytes::{BufMut, Bytes, BytesMut};
 #[cfg(feature = "async")]
 use futures_util::io::{AsyncRead, AsyncReadExt};
 use http::Uri;
+#[cfg(not(kani))]
 use log::trace;
+#[cfg(kani)]
+macro_rules! trace {
+    ($($t:tt)*) => {};
+}
 #[cfg(feature = "serde")]
 use serde::{Deserialize, Serialize};
 
